@@ -30,6 +30,7 @@ let primary_ptr = ref 0
 let api_bad : string list ref = ref []
 let last_ok_req : (int, int) Hashtbl.t = Hashtbl.create 8
 let last_mig_req : (int * int, int * int) Hashtbl.t = Hashtbl.create 8
+let cb_installed : (int, bool) Hashtbl.t = Hashtbl.create 8   (* scenario unit index -> a migration callback is installed *)
 let mig_stored : (int, bool) Hashtbl.t = Hashtbl.create 8      (* actor -> a MIGST record since its migrate_to_pool call began *)
 let ext_joiner : (int, int) Hashtbl.t = Hashtbl.create 8         (* actor pointer -> dummy id of its current join *)
 let root_ptrs : (int, bool) Hashtbl.t = Hashtbl.create 8         (* root ULTs of the streams: outside the model *)
@@ -245,9 +246,18 @@ let () =
                 apply ln desc (EJoinRet (nat_of a, nat_of u)) [u] [] []
               | None -> raise (Mismatch (Printf.sprintf "line=%d join of an unknown unit index %d" ln idx)))
            end else if op = Char.code 'x' then xjoin := (idx, int_of_string c) :: !xjoin
+           else if op = Char.code 'N' then begin
+             let v = int_of_string c in
+             if v <> 0 then api_bad := Printf.sprintf "thread_join_many/free_many(%d-entries)-returned-rc=%d-with-%d-listed-units-not-finished" idx (v / 1000) (v mod 1000) :: !api_bad
+           end
+           else if op = Char.code 'b' then Hashtbl.replace cb_installed idx true
            else if op = Char.code 'p' then begin
              (* final pool + callback count of a unit: the last acknowledged request must have been performed *)
              let v = int_of_string c in
+             (match Hashtbl.find_opt last_ok_req idx with
+              | Some want when want = v / 1000 && Hashtbl.mem cb_installed idx && v mod 1000 = 0 ->
+                api_bad := Printf.sprintf "unit%d-was-migrated-to-pool%d-but-its-migration-callback-was-never-called" idx want :: !api_bad
+              | _ -> ());
              (match Hashtbl.find_opt last_ok_req idx with
               | Some want when want <> v / 1000 ->
                 api_bad := Printf.sprintf "F6:unit%d-last-acknowledged-migration-target-pool%d-but-unit-is-in-pool%d(callbacks=%d)" idx want (v / 1000) (v mod 1000) :: !api_bad
